@@ -80,23 +80,79 @@ func decodeLoop(c *Ctx, prop string, fn *ssa.Function, consumers ...string) {
 			return
 		}
 	}
-	ifErr := errNotNilIf(d, d)
-	if ifErr == nil {
-		c.Fail(key, rule, "the Decode error is not tested", c.at(d))
-		return
+	// the values that denote this Decode's error
+	errVals := errValuesOf(d)
+	isErrV := func(v ssa.Value) bool {
+		for _, e := range errVals {
+			if e == v {
+				return true
+			}
+		}
+		return false
 	}
-	okEdge, errEdge := 1, 0
+	// block classification from dominating facts
+	const (
+		unknown = iota
+		okBlk
+		eofBlk
+		otherErrBlk
+		errBlk
+	)
+	classify := func(b *ssa.BasicBlock) int {
+		nonNil, isNil, isEOF, notEOF := false, false, false, false
+		for _, f := range factsAt(b) {
+			bo, ok := f.Cond.(*ssa.BinOp)
+			if !ok || (bo.Op != token.EQL && bo.Op != token.NEQ) {
+				continue
+			}
+			var other ssa.Value
+			switch {
+			case isErrV(bo.X):
+				other = bo.Y
+			case isErrV(bo.Y):
+				other = bo.X
+			default:
+				continue
+			}
+			eq := (bo.Op == token.EQL) == f.Val
+			if k, isC := other.(*ssa.Const); isC && k.Value == nil {
+				if eq {
+					isNil = true
+				} else {
+					nonNil = true
+				}
+				continue
+			}
+			if ld, isL := isLoad(other); isL {
+				if g, isG := ld.X.(*ssa.Global); isG && g.Name() == "EOF" && g.Pkg.Pkg.Path() == "io" {
+					if eq {
+						isEOF = true
+					} else {
+						notEOF = true
+					}
+				}
+			}
+		}
+		switch {
+		case isNil:
+			return okBlk
+		case isEOF:
+			return eofBlk
+		case nonNil && notEOF:
+			return otherErrBlk
+		case nonNil:
+			return errBlk
+		}
+		return unknown
+	}
 	// uses of the record
 	var uses []*ssa.Call
 	for _, r := range refs(al) {
 		call, isCall := r.(*ssa.Call)
 		if !isCall || call == d {
-			if _, isFA := r.(*ssa.FieldAddr); isFA {
-				// direct field reads must also be on the ok edge
-				if !edgeDominates(ifErr.Block(), okEdge, r.Block()) {
-					c.Fail(key, rule, "a field of the record is read before the Decode error is checked", c.at(r))
-					return
-				}
+			if _, isFA := r.(*ssa.FieldAddr); isFA && classify(r.Block()) != okBlk {
+				c.Fail(key, rule, "a field of the record is read before the Decode error is known to be nil", c.at(r))
+				return
 			}
 			continue
 		}
@@ -106,7 +162,7 @@ func decodeLoop(c *Ctx, prop string, fn *ssa.Function, consumers ...string) {
 		for _, u := range uses {
 			if i == ssa.Instruction(u) {
 				for _, n := range consumers {
-					if isCallTo(i, n) || (strings.HasPrefix(n, "invoke:") && isCallTo(i, n)) {
+					if isCallTo(i, n) {
 						return true
 					}
 				}
@@ -116,7 +172,7 @@ func decodeLoop(c *Ctx, prop string, fn *ssa.Function, consumers ...string) {
 	}
 	nCons := 0
 	for _, u := range uses {
-		if !edgeDominates(ifErr.Block(), okEdge, u.Block()) {
+		if classify(u.Block()) != okBlk {
 			c.Fail(key, rule, "the record is used although Decode may have failed (partly filled record)", c.at(u))
 			return
 		}
@@ -128,52 +184,54 @@ func decodeLoop(c *Ctx, prop string, fn *ssa.Function, consumers ...string) {
 		c.Fail(key, rule, fmt.Sprintf("the decoded record is consumed at %d sites, want exactly 1 (%v)", nCons, consumers), c.at(d))
 		return
 	}
-	// from the ok edge, the next Decode / a return is not reachable without consuming
-	set := exploreBlock(ifErr.Block().Succs[okEdge], isConsumer)
-	if set[ssa.Instruction(d)] || len(returnsIn(set)) > 0 {
-		c.Fail(key, rule, "a successfully decoded record can be dropped (next Decode or return reachable without consuming it)", c.at(d))
+	// walking on from the Decode without passing the consumer: the next Decode must be unreachable
+	// (a record dropped, or an error swallowed), and every return reached must be on an error path
+	set := explore(d, false, isConsumer)
+	if set[ssa.Instruction(d)] {
+		// which kind?
+		why := "a successfully decoded record can be dropped, or a decode error is swallowed and the loop continues (the next Decode is reachable without consuming the record)"
+		c.Fail(key, rule, why, c.at(d))
 		return
 	}
-	// error edge: io.EOF → leaves the loop, never back to Decode; other → return non-nil
-	var eofIf *ssa.If
-	setErr := exploreBlock(ifErr.Block().Succs[errEdge], nil)
-	for i := range setErr {
-		bo, isBo := i.(*ssa.BinOp)
-		if !isBo || bo.Op != token.EQL {
-			continue
+	sawEOF := false
+	for i := range set {
+		if bo, isBo := i.(*ssa.BinOp); isBo && bo.Op == token.EQL {
+			for k, side := range []ssa.Value{bo.X, bo.Y} {
+				other := []ssa.Value{bo.Y, bo.X}[k]
+				if ld, isL := isLoad(side); isL && isErrV(other) {
+					if g, isG := ld.X.(*ssa.Global); isG && g.Name() == "EOF" && g.Pkg.Pkg.Path() == "io" {
+						if ifi := trueImpliesIf(bo); ifi != nil && !exploreBlock(ifi.Block().Succs[0], nil)[ssa.Instruction(d)] {
+							sawEOF = true
+						}
+					}
+				}
+			}
 		}
-		for _, side := range []ssa.Value{bo.X, bo.Y} {
-			if ld, isL := isLoad(side); isL {
-				if g, isG := ld.X.(*ssa.Global); isG && g.Name() == "EOF" && g.Pkg.Pkg.Path() == "io" {
-					eofIf = trueImpliesIf(bo)
+		if r, isR := i.(*ssa.Return); isR {
+			switch classify(r.Block()) {
+			case okBlk, unknown:
+				// the spilled-return blocks after `break` are unknown: accept only if reached through an EOF block
+				if !reachedOnlyVia(d, r, func(b *ssa.BasicBlock) bool { k := classify(b); return k == eofBlk || k == otherErrBlk || k == errBlk }, isConsumer) && !onlyViaErrEdges(d, r, isErrV, isConsumer) {
+					c.Fail(key, rule, "the loop can end without consuming a successfully decoded record", c.at(r))
+					return
 				}
 			}
 		}
 	}
-	if eofIf == nil {
-		c.Fail(key, rule, "the loop does not distinguish io.EOF from other errors", c.at(ifErr))
+	if !sawEOF {
+		c.Fail(key, rule, "the loop does not distinguish io.EOF from other errors", c.at(d))
 		return
 	}
-	setEOF := exploreBlock(eofIf.Block().Succs[0], nil)
-	if setEOF[ssa.Instruction(d)] {
-		c.Fail(key, rule, "after io.EOF the loop decodes again", c.at(eofIf))
-		return
-	}
-	setOther := exploreBlock(eofIf.Block().Succs[1], nil)
-	if setOther[ssa.Instruction(d)] {
-		c.Fail(key, rule, "a decode error other than io.EOF is swallowed and the loop continues", c.at(eofIf))
-		return
-	}
-	// the other-error edge returns the error: every return reached stores/returns a value flowing from the Decode result
-	okRet := len(returnsIn(setOther)) > 0
-	for i := range setOther {
-		if isConsumer(i) {
-			okRet = false
+	// a non-EOF error must end the command: from blocks classified otherErr, a return is reached
+	for i := range set {
+		if classify(i.Block()) == otherErrBlk {
+			sub := exploreBlock(i.Block(), nil)
+			if len(returnsIn(sub)) == 0 {
+				c.Fail(key, rule, "a decode error other than io.EOF does not end the command", c.at(i))
+				return
+			}
+			break
 		}
-	}
-	if !okRet {
-		c.Fail(key, rule, "a decode error other than io.EOF does not end the command", c.at(eofIf))
-		return
 	}
 	c.Pass(key, rule, "fresh Result per iteration; one consumer on the ok edge; EOF ends; other errors return", c.at(al), c.at(d))
 }
@@ -215,6 +273,103 @@ func gobDirect(c *Ctx) {
 		}
 		c.Check(ok, key, rGob, "one "+w.call+"(r), result returned", "the gob closure does more than encode/decode its argument (e.g. decodes into a retained scratch value and copies it)", c.fnAt(cl))
 	}
+}
+
+// errValuesOf returns the SSA values that denote the error result of call:
+// the call / its error extract, and loads of a cell it was stored to (before
+// the next store to that cell in the same block chain).
+func errValuesOf(call *ssa.Call) []ssa.Value {
+	errT := types.Universe.Lookup("error").Type()
+	var out []ssa.Value
+	if types.Identical(call.Type(), errT) {
+		out = append(out, call)
+	}
+	for _, r := range refs(call) {
+		if ex, ok := r.(*ssa.Extract); ok && types.Identical(ex.Type(), errT) {
+			out = append(out, ex)
+		}
+	}
+	base := append([]ssa.Value{}, out...)
+	for _, ev := range base {
+		for _, r := range refs(ev) {
+			st, ok := r.(*ssa.Store)
+			if !ok || st.Val != ev {
+				continue
+			}
+			reach := explore(st, false, func(i ssa.Instruction) bool {
+				s2, ok := i.(*ssa.Store)
+				return ok && s2.Addr == st.Addr
+			})
+			for i := range reach {
+				if ld, ok := i.(*ssa.UnOp); ok && ld.Op == token.MUL && ld.X == st.Addr {
+					out = append(out, ld)
+				}
+			}
+		}
+		// φ carrying the error forward
+		for _, r := range refs(ev) {
+			if phi, ok := r.(*ssa.Phi); ok {
+				out = append(out, phi)
+			}
+		}
+	}
+	return out
+}
+
+// onlyViaErrEdges: every path from the Decode to the return (avoiding consumers)
+// takes the true edge of an `err != nil` / `err == io.EOF` test on this error.
+func onlyViaErrEdges(d *ssa.Call, to ssa.Instruction, isErrV func(ssa.Value) bool, stop func(ssa.Instruction) bool) bool {
+	// remove the error edges: explore where an If on the error is only followed along its "no error" successor
+	reached := map[ssa.Instruction]bool{}
+	visited := map[*ssa.BasicBlock]bool{}
+	var walk func(b *ssa.BasicBlock, from int)
+	walk = func(b *ssa.BasicBlock, from int) {
+		for k := from; k < len(b.Instrs); k++ {
+			i := b.Instrs[k]
+			if stop != nil && stop(i) {
+				return
+			}
+			reached[i] = true
+		}
+		succs := b.Succs
+		if len(b.Instrs) > 0 {
+			if ifi, ok := b.Instrs[len(b.Instrs)-1].(*ssa.If); ok {
+				if bo, ok := ifi.Cond.(*ssa.BinOp); ok && (isErrV(bo.X) || isErrV(bo.Y)) {
+					switch bo.Op {
+					case token.NEQ: // err != nil / err != io.EOF : follow only the false edge for nil tests
+						if k, isC := bo.Y.(*ssa.Const); isC && k.Value == nil {
+							succs = b.Succs[1:]
+						}
+					case token.EQL:
+						if k, isC := bo.Y.(*ssa.Const); isC && k.Value == nil {
+							succs = b.Succs[:1]
+						} else {
+							succs = b.Succs[1:] // err == io.EOF: the true edge is an error edge
+						}
+					}
+				}
+			}
+		}
+		for _, s := range succs {
+			if !visited[s] {
+				visited[s] = true
+				walk(s, 0)
+			}
+		}
+	}
+	walk(d.Block(), indexIn(d)+1)
+	return !reached[to]
+}
+
+// reachedOnlyVia: every path from `from` to `to` that avoids `stop` passes a block satisfying via.
+func reachedOnlyVia(from, to ssa.Instruction, via func(*ssa.BasicBlock) bool, stop func(ssa.Instruction) bool) bool {
+	set := explore(from, false, func(i ssa.Instruction) bool {
+		if stop != nil && stop(i) {
+			return true
+		}
+		return via(i.Block()) && i == i.Block().Instrs[0]
+	})
+	return !set[to]
 }
 
 // ---------------------------------------------------------------- C08
